@@ -84,6 +84,7 @@ func (prop) Info() fw.Info {
 			"order is not demanded where a list is produced by iterating a set or a map's entries (compared as a multiset); two evaluations of one program must still agree exactly",
 			"constructs the statement does not pin are not generated: duplicate elements in set literals, flatten producing equal elements into a set, list-valued flatten bodies over maps, attribute access other than key/value on an unpacked map entry, records with exactly the fields key and value, use of a name after a transform used it as scope variable other than re-exporting it",
 		},
+		CaseTimeout: 300,
 		SetFloors:   map[string]int{"cells": len(generatedCells)},
 		CountFloors: map[string]int{"programs": 2000, "bindings_rechecked": 4000, "transforms": 500, "shadowing_binders": 100, "double_evaluations": 2000},
 	}
@@ -228,35 +229,95 @@ func check(ctx *fw.Ctx, i int, kind string, p *Program, b *builder, res *fw.Resu
 	}
 	files["diff.txt"] = diffText(exp, run1.Result, diffs, expParams, run1.Params, pdiffs)
 
-	// A mismatch against the semantics is established. Name its cause: does one of the known
-	// defects, modelled exactly, give precisely what the evaluator returned?
+	// A mismatch against the semantics is established. Name its cause, field by field: does one
+	// of the known defects, modelled exactly, give precisely what the evaluator returned there?
+	// Whatever the known defects do not explain gets a signature of its own.
+	type modelled struct {
+		m      mode
+		exp    *Val
+		params map[string]*Val
+	}
+	var models []modelled
 	for _, dm := range []mode{{alias: true}, {del: true}, {alias: true, del: true}} {
-		din := newInterp(p, dm)
-		dexp, dparams, derr := din.run(p.Args)
-		if derr != nil || !equalVal(dexp, run1.Result) || len(diffParams(dparams, run1.Params)) > 0 {
-			continue
+		if dexp, dparams, derr := newInterp(p, dm).run(p.Args); derr == nil {
+			models = append(models, modelled{dm, dexp, dparams})
 		}
-		if dm.alias {
-			res.Violate(sigAlias, "a list bound earlier changed after a later '|' re-used it as left operand ("+firstDiffMsg(exp, run1.Result, diffs, pdiffs)+")", files)
-		}
-		if dm.del {
-			res.Violate(sigDel, "a name bound outside a transform is unbound after the transform used the same name as scope variable ("+firstDiffMsg(exp, run1.Result, diffs, pdiffs)+")", files)
-		}
-		return
 	}
-	if len(diffs) > 0 {
-		k := diffs[0]
+	aliasMsg, delMsg := "", ""
+	explain := func(m mode, what string) {
+		if m.alias && aliasMsg == "" {
+			aliasMsg = what
+		}
+		if m.del && delMsg == "" {
+			delMsg = what
+		}
+	}
+	var unexplained, unexplainedParams []string
+	for _, k := range diffs {
+		done := false
+		for _, md := range models {
+			var e, a *Val
+			if k == "<result>" {
+				e, a = md.exp, run1.Result
+			} else {
+				e, a = lookupKey(md.exp, k), lookupKey(run1.Result, k)
+			}
+			if (e == nil && a == nil) || (e != nil && a != nil && equalVal(e, a)) {
+				explain(md.m, firstDiffMsg(exp, run1.Result, []string{k}, nil))
+				done = true
+				break
+			}
+		}
+		if !done {
+			unexplained = append(unexplained, k)
+		}
+	}
+	for _, k := range pdiffs {
+		done := false
+		for _, md := range models {
+			if e, a := md.params[k], run1.Params[k]; e != nil && a != nil && equalVal(e, a) {
+				explain(md.m, firstDiffMsg(exp, run1.Result, nil, []string{k}))
+				done = true
+				break
+			}
+		}
+		if !done {
+			unexplainedParams = append(unexplainedParams, k)
+		}
+	}
+	if aliasMsg != "" {
+		res.Violate(sigAlias, "a list bound earlier changed after a later '|' re-used it as left operand ("+aliasMsg+")", files)
+	}
+	if delMsg != "" {
+		res.Violate(sigDel, "a name bound outside a transform is unbound after the transform used the same name as scope variable ("+delMsg+")", files)
+	}
+	if len(unexplained) > 0 {
+		k := unexplained[0]
 		e, a := lookupKey(exp, k), lookupKey(run1.Result, k)
-		sig := "value|" + describe(p, k) + "|" + kindOf(e) + "->" + kindOf(a)
-		if strings.HasPrefix(k, "chk_") {
-			sig = "purity|rebound-value-differs|" + describe(p, k) + "|" + kindOf(e) + "->" + kindOf(a)
+		if k == "<result>" {
+			e, a = exp, run1.Result
 		}
-		res.Violate(sig, "evaluation differs from the expression semantics: "+firstDiffMsg(exp, run1.Result, diffs, pdiffs), files)
+		sig := "value|" + describe(p, k) + "|" + kindOf(e) + "->" + kindOf(a)
+		msg := "evaluation differs from the expression semantics: "
+		if strings.HasPrefix(k, "chk_") {
+			d := describe(p, k)
+			if d == "parameter" {
+				sig = "purity|parameter-changed|" + kindOf(e) + "->" + kindOf(a)
+				msg = "a parameter no longer has the value it was called with: "
+			} else {
+				// the value re-exported at the end of the body: bound wrongly, or changed afterwards
+				sig = "let-value|" + d + "|" + kindOf(e) + "->" + kindOf(a)
+				msg = "a let binding re-exported at the end of the body does not have the value the semantics give it: "
+			}
+		}
+		res.Violate(sig, msg+firstDiffMsg(exp, run1.Result, unexplained, nil), files)
 		return
 	}
-	k := pdiffs[0]
-	res.Violate("purity|argument-binding-changed|"+kindOf(expParams[k])+"->"+kindOf(run1.Params[k]),
-		"the caller's binding of a parameter changed during evaluation: "+firstDiffMsg(exp, run1.Result, diffs, pdiffs), files)
+	if len(unexplainedParams) > 0 {
+		k := unexplainedParams[0]
+		res.Violate("purity|argument-binding-changed|"+kindOf(expParams[k])+"->"+kindOf(run1.Params[k]),
+			"the caller's binding of a parameter changed during evaluation: "+firstDiffMsg(exp, run1.Result, nil, unexplainedParams), files)
+	}
 }
 
 func countChk(p *Program) int {
